@@ -7,6 +7,10 @@ CLAIMS = {
   text="Deductive proof of the refusal and mode-selection half of the wire codec: Encoder.validQuoted equals the quoted-string admissibility predicate for every byte string (length threshold 4096, NUL/CR/LF, 8-bit bytes only with UTF-8 quoting), Encoder.String quotes only admissible strings, stringLiteral/Literal choose '{n}' vs '{n+}' exactly per side and negotiated mode and announce exactly len(s) bytes, isValidFlag equals the flag grammar [\\] 1*ATOM-CHAR, and a malformed flag, malformed mailbox attribute or empty number set is refused with an error before anything is written.",
   note="unicode.IsControl modelled by its Latin-1 definition (assumed). Not covered (not claimed): decode(encode(v)) == v round-trips (Quoted/Decoder.Quoted inverse, literals, numbers, mailbox UTF-7, nested lists), 'exactly the written bytes are consumed'; the decoder side is under contract only for its error discipline (C02/C06).",
   design="§6 C01"),
+ "C04": dict(
+  text="Deductive proof, with a ghost counter of tagged response lines defined by the four functions that put a tag at the start of a line: Conn.readCommand, from any connection state and for every decoder outcome, writes exactly one tagged response when it returns without a connection-level error (at most two if a handler's own completion had been written and only its flush failed); handlers that send their own completion (STARTTLS, AUTHENTICATE, LOGIN, SELECT/EXAMINE, APPEND, COPY) write exactly one on success and none on failure (unless that write itself failed); every other method of Conn writes none; '+' is written by acceptLiteral only for synchronising literals and by IDLE only when authenticated; checkBufferedLiteral refuses sizes above 4096; the decoder's error is sticky and Expect* failures are errors, so a handler never continues parsing after a failed read.",
+  note="KNOWN FINDING (known_findings.txt): a refused literal is neither drained nor made a decoder error (Decoder.Literal/post0). Not covered: well-formedness of each response line (responseEncoder begin/end pairing, partial lines left in the buffer after an encoder error), interleaving of IDLE goroutine output (schedules), the serve loop.",
+  design="§6 C04"),
  "C05": dict(
   text="Deductive proof, for every method of imapserver.Conn except serve and handleIdle and from an arbitrary entry state and configuration (TLS or not, InsecureAuth, any back-end outcome), that each call of a Session method is reached only in the RFC-permitted connection state (call-site obligations: Login only when not authenticated and over TLS or with InsecureAuth; Select/Create/.../Poll only when authenticated or selected; Unselect/Expunge/Search/Fetch/Store/Copy/Move only when selected), that checkState and canAuth have their exact meaning, that every handler other than login/authenticate/unauthenticate/select/unselect/logout leaves the state unchanged, and that those six perform exactly the RFC transitions for each back-end outcome (failed SELECT leaves no mailbox selected, etc.).",
   note="Frames of calls without contract come from govc's may-write analysis (CHA for interface and function-value calls); back-end Session implementations cannot write Conn's unexported fields (Go visibility). Object invariant assumed at method entry: c != nil && c.server != nil. Not covered: Conn.serve (greeting, PREAUTH, loop exit at logout), handleIdle (goroutine), the SASL closure inside handleAuthenticate, the unknown-command BYE in readCommand.",
